@@ -103,7 +103,7 @@ class Model:
             self.p.kill()
             self.p.wait()
             self._start()
-            return ['fuel']
+            return ['fuel', 'timeout']
         reply = self.p.stdout.readline()
         if not reply:
             code = self.p.wait()
@@ -111,7 +111,7 @@ class Model:
             if code is not None and code < 0:
                 # killed by a signal (stack or memory exhausted): same meaning as fuel
                 self.timeouts += 1
-                return ['fuel']
+                return ['fuel', 'timeout']
             raise ModelError('model driver died on: ' + line[:200])
         return [unesc(f) for f in reply.rstrip('\n').split('\t')]
 
@@ -155,7 +155,7 @@ def canon_reply(r):
     if r[0] == 'exc':
         return ('exc', r[1])
     if r[0] == 'fuel':
-        return ('fuel', 'model')
+        return ('fuel', 'model-timeout' if len(r) > 1 else 'model')
     if r[0] == 'unsupported':
         return ('unsupported',)
     return ('error',) + tuple(r)
